@@ -65,7 +65,7 @@ pub fn record_r_coverage(ctx: &mut Ctx, d: &Decoded) {
 }
 
 impl C01 {
-    fn judge(&mut self, ctx: &mut Ctx, bytes: &[u8], mutated: bool) {
+    pub fn judge(&mut self, ctx: &mut Ctx, bytes: &[u8], mutated: bool) {
         ctx.eval();
         ctx.set_input_bytes(bytes);
         let d = decode_bytes(bytes);
@@ -135,6 +135,7 @@ impl Check for C01 {
             ("render-mut".into(), 90_000 * k),
             ("corpus-mut".into(), 90_000 * k),
             ("nearmiss".into(), 60_000 * k),
+            ("nesting".into(), 6_000 * k),
         ]
     }
     fn run(&mut self, ctx: &mut Ctx, workload: &str, index: u64, rng: &mut Rng) {
@@ -169,6 +170,33 @@ impl Check for C01 {
                 let (t, _) = docs::mutated(rng, true);
                 ctx.sample("corpus-mut", || String::from_utf8_lossy(&t).into_owned());
                 self.judge(ctx, &t, true);
+            }
+            "nesting" => {
+                // every construct nested to a random depth, alone and combined, mostly below the limit
+                let pick = |rng: &mut Rng| -> usize { *rng.pick(&[1usize, 2, 5, 13, 20, 26, 27, 30, 39, 40, 41, 60, 70, 76, 77, 79, 80, 90]) };
+                let r = loop {
+                    let header = match rng.below(4) {
+                        0 => Some((false, pick(rng))),
+                        1 => Some((true, pick(rng))),
+                        _ => None,
+                    };
+                    let key = if rng.chance(2, 3) { 1 } else { pick(rng) };
+                    let layers: Vec<crate::c05::Layer> = (0..rng.below(3))
+                        .map(|_| match rng.below(4) {
+                            0 => crate::c05::Layer::Array(pick(rng)),
+                            1 => crate::c05::Layer::Inline(pick(rng), 1),
+                            2 => crate::c05::Layer::Inline(pick(rng).min(30), 1 + rng.below(3)),
+                            _ => crate::c05::Layer::Mixed(pick(rng)),
+                        })
+                        .collect();
+                    let r = crate::c05::Recipe { header, key, layers };
+                    if r.text_len() < 4096 {
+                        break r;
+                    }
+                };
+                ctx.count("nesting-recipes");
+                ctx.sample("nesting", || r.encode());
+                self.judge(ctx, r.text().as_bytes(), false);
             }
             "nearmiss" => {
                 let t = docs::near_miss_doc(rng);
